@@ -16,12 +16,18 @@ def main():
             sys.exit(mod.replay(a.replay))
         rep = mod.run(a.tier)
         sys.exit(rep.finish())
-    except MachineryError as e:
-        print("MACHINERY-ERROR %s: %s" % (a.pid, e), file=sys.stderr)
-        sys.exit(2)
-    except Exception:
-        traceback.print_exc()
-        print("MACHINERY-ERROR %s: unexpected exception in the harness" % a.pid, file=sys.stderr)
+    except (MachineryError, Exception) as e:
+        from . import report
+        if not isinstance(e, MachineryError):
+            traceback.print_exc()
+        print("MACHINERY-ERROR %s: %s" % (a.pid, e if isinstance(e, MachineryError) else "unexpected exception in the harness"), file=sys.stderr)
+        # violations already established against the real code are still reported (a later self-test or a harness step
+        # may fail BECAUSE the code is broken); without any violation a machinery failure is exit 2, never an alarm
+        rep = report.CURRENT[-1] if report.CURRENT else None
+        if rep is not None and rep.violations:
+            rep.cov.setdefault("parts", {})["machinery_error_after_violations"] = str(e)[:300]
+            if rep.finish() == 1:
+                sys.exit(1)
         sys.exit(2)
 
 
